@@ -2,6 +2,7 @@ SPECIFICATION LSpec
 VIEW LView
 CONSTRAINT Bound
 INVARIANT ObsLaw
+INVARIANT CliLaw
 PROPERTY SharedFrozen
 PROPERTY WdFrozen
 PROPERTY CalcsStable
